@@ -285,6 +285,8 @@ def check(ctx):
     _dunders(ctx, rep, model)
     _delegation(ctx, rep, model)
     _broadcast(ctx, rep)
+    from . import c01b
+    c01b.layout_rules(rep, model, ctx.tier == 'thorough')
     return rep
 
 
